@@ -571,10 +571,10 @@ pub fn field_fault(img: &mut Img, kind: usize) -> &'static str {
     FIELD_FAULTS[kind]
 }
 
-pub const COORDINATED_FAULTS: [&str; 12] = [
+pub const COORDINATED_FAULTS: [&str; 13] = [
     "meta_append_zeros", "remainder_prepend_zeros", "remainder_append_zeros", "fri_extra_layer", "fri_drop_layer",
     "merkle_extra_node", "merkle_extra_vector", "queries_extra_row", "commitments_extra_digest",
-    "one_more_unique_query_everywhere", "one_fewer_unique_query_everywhere", "modulus_append_bytes",
+    "one_more_unique_query_everywhere", "one_fewer_unique_query_everywhere", "modulus_append_bytes", "extension_switch",
 ];
 
 /// a coordinated multi-site edit: content changed AND every length that describes it re-synchronised,
@@ -664,6 +664,34 @@ pub fn coordinated_fault(img: &mut Img, kind: usize, element_bytes: usize) -> &'
             let fill = [0u8, 1, 0xff][tape::f("coord.modulus_fill", 3) as usize];
             if img.modulus.len() + k <= 255 {
                 img.modulus.extend(std::iter::repeat(fill).take(k));
+            }
+        },
+        12 => {
+            // the extension-degree byte changes AND every blob of extension-field elements is
+            // resized to the new element width (auxiliary and constraint query tables, both halves
+            // of the out-of-domain frame, FRI layer values, remainder), so that all shape checks
+            // pass: a proof that claims another extension, possibly one the field does not support
+            let old = img.opts[3] as usize;
+            if (1..=3).contains(&old) {
+                let new = [[2usize, 3], [1, 3], [1, 2]][old - 1][tape::f("coord.ext_new", 2) as usize];
+                let fill = [0u8, 1, 0xff][tape::f("coord.ext_fill", 3) as usize];
+                let resize = |v: &mut Vec<u8>, header: usize| {
+                    if v.len() >= header {
+                        let n = header + (v.len() - header) / old * new;
+                        v.resize(n, fill);
+                    }
+                };
+                for q in img.trace_queries.iter_mut().skip(1) {
+                    resize(&mut q.values, 0);
+                }
+                resize(&mut img.constraint_queries.values, 0);
+                resize(&mut img.ood_trace, 1);
+                resize(&mut img.ood_quot, 1);
+                for l in img.fri_layers.iter_mut() {
+                    resize(&mut l.values, 0);
+                }
+                resize(&mut img.remainder, 0);
+                img.opts[3] = new as u8;
             }
         },
         _ => {},
